@@ -19,8 +19,17 @@ class Describer:
     def op(self, o):
         return self.d(strip_bb(self.R.op(o)))
 
-    def elem_value(self, l, rv):
-        """descriptor of the value stored by `L[i] = rv` (element reads described as ('elem', base))"""
+    def elem_value(self, l, rv, idx_local=None):
+        """descriptor of the value stored by `L[i] = rv` (element reads at the same index i described as ('elem', base),
+        reads at another index as ('elem_at', base, index))"""
+        want = strip_bb(self.R.local(idx_local)) if idx_local is not None else None
+
+        def same_index(pl):
+            if want is None:
+                return True
+            js = [e["local"] for e in pl["proj"] if e["k"] == "index"]
+            return all(strip_bb(self.R.local(j)) == want for j in js)
+
         def opd(o):
             if o["k"] == "const":
                 return o.get("val")
@@ -31,6 +40,9 @@ class Describer:
                     pl = sd[2]["rv"]["op"]["place"]
             if any(e["k"] == "index" for e in pl["proj"]):
                 base = {"local": pl["local"], "proj": [e for e in pl["proj"] if e["k"] != "index"]}
+                if not same_index(pl):
+                    j = [e["local"] for e in pl["proj"] if e["k"] == "index"][0]
+                    return ("elem_at", self.d(strip_bb(self.R.place(base) if base["proj"] else self.R.local(base["local"]))), self.num(strip_bb(self.R.local(j))))
                 if not base["proj"] and self.fn.local_ty(base["local"])["k"] == "array":
                     return ("elem", ("at", "local#%d" % base["local"]))
                 return ("elem", self.d(strip_bb(self.R.place(base) if base["proj"] else self.R.local(base["local"]))))
@@ -286,6 +298,166 @@ class Describer:
         return ("?", k)
 
 
+def loop_index(D, local):
+    """('range', a, b) when `local` is the item of `for local in a..b` (every value a <= i < b, each once)"""
+    e = strip_bb(D.R.local(local))
+    for _ in range(3):
+        if e[0] == "field" and e[2] in ("0", "as Some"):
+            e = e[1]
+        elif e[0] == "okval":
+            e = e[1]
+    if not (e[0] == "call" and (e[1] or "").endswith("iter::Iterator::next") and e[3]):
+        return None
+    it = e[3][0]
+    if it[0] not in ("ref", "place") or len(it[1]) != 1:
+        return None
+    (root, proj) = next(iter(it[1]))
+    if root[0] != "loc" or proj:
+        return None
+    ie = strip_bb(D.R.init_expr(root[1]))
+    for _ in range(2):
+        if ie[0] == "call" and (ie[1] or "").endswith("IntoIterator::into_iter") and ie[3]:
+            ie = ie[3][0]
+    if ie[0] == "agg" and (ie[1] or "").endswith("ops::Range") and len(ie[3]) == 2:
+        return ("range", D.num(ie[3][0]), D.num(ie[3][1]))
+    return None
+
+
+def _iter_item(D, local):
+    """for a local bound to (a component of) the item of `for .. in <iterator expression>`: (element descriptor,
+    iteration range) where the element descriptor is ('elemof', slice descriptor) — or None"""
+    e = strip_bb(D.R.local(local))
+    path = []
+    for _ in range(8):
+        if e[0] == "field":
+            path.append(e[2])
+            e = e[1]
+        elif e[0] == "okval":
+            path.append("0")
+            path.append("as Some")
+            e = e[1]
+        else:
+            break
+    path.reverse()
+    if not (e[0] == "call" and (e[1] or "").endswith("iter::Iterator::next") and e[3]):
+        return None
+    it = e[3][0]
+    if it[0] not in ("ref", "place") or len(it[1]) != 1:
+        return None
+    (root, proj) = next(iter(it[1]))
+    if root[0] != "loc" or proj:
+        return None
+    shape = _iter_shape(D, strip_bb(D.R.init_expr(root[1])))
+    if shape is None:
+        return None
+    # the payload of Some, then tuple components
+    if path[:1] == ["as Some"]:
+        path = path[1:]
+    if path[:1] == ["0"]:
+        path = path[1:]
+    else:
+        return None
+    item = _item_of(shape)
+    for f in path:
+        if not (isinstance(item, tuple) and item and item[0] == "tuple" and f in ("0", "1")):
+            return None
+        item = item[1 + int(f)]
+    if not (isinstance(item, tuple) and item[0] == "elemof"):
+        return None
+    lens = _leaf_lengths(shape)
+    if lens is None or len(set(lens)) != 1:
+        return None
+    return item, ("range", 0, lens[0])
+
+
+def _iter_shape(D, e):
+    if e[0] in ("unsize", "sized"):
+        return _iter_shape(D, e[1])
+    if e[0] == "call":
+        d = e[1] or ""
+        if d.endswith("IntoIterator::into_iter") and e[3]:
+            return _iter_shape(D, e[3][0])
+        if (d.endswith("<impl [T]>::iter_mut") or d.endswith("<impl [T]>::iter")) and e[3]:
+            return ("iter", D.d(e[3][0]))
+        if d.endswith("iter::Iterator::zip") and len(e[3]) == 2:
+            a, b = _iter_shape(D, e[3][0]), _iter_shape(D, e[3][1])
+            if a is None or b is None:
+                return None
+            return ("zip", a, b)
+        if is_index_call(e):
+            return ("iter", D.d(e))
+        return None
+    if e[0] in ("arg", "ref", "place", "aref", "local"):
+        return ("iter", D.d(e))
+    return None
+
+
+def _item_of(shape):
+    if shape[0] == "iter":
+        return ("elemof", shape[1])
+    return ("tuple", _item_of(shape[1]), _item_of(shape[2]))
+
+
+def _leaf_lengths(shape):
+    """lengths of the zipped slices, when each is a whole slice or a prefix `[..n]` (so that position k of the
+    iteration is element k of every slice)"""
+    if shape[0] == "zip":
+        a, b = _leaf_lengths(shape[1]), _leaf_lengths(shape[2])
+        return None if a is None or b is None else a + b
+    d = shape[1]
+    if isinstance(d, tuple) and d and d[0] == "slice":
+        if d[2][0] == "to":
+            return [d[2][1]]
+        return None
+    if isinstance(d, tuple) and d and d[0] in ("param", "at"):
+        return [("len", d)]
+    return None
+
+
+def _elem_base(d):
+    """storage descriptor of a slice descriptor, in the spelling elem events use"""
+    if isinstance(d, tuple) and d and d[0] == "slice":
+        d = d[1]
+    if isinstance(d, tuple) and d and d[0] == "param":
+        return ("at", "p%d" % d[1])
+    return d
+
+
+def zipped_elem_event(D, fn, s):
+    """`*x = op(*x, *y)` where x and y are items of one zipped iteration over slices: the element-wise update
+    `L[i] = op(L[i], K[i])` for every i of the common length"""
+    p = s["place"]["local"]
+    r = _iter_item(D, p)
+    if r is None:
+        return None
+    item, rng = r
+    base = _elem_base(item[1])
+    if not (isinstance(base, tuple) and base[0] == "at" and isinstance(base[1], str) and base[1].startswith("local#")):
+        return None
+
+    def opd(o):
+        if o["k"] == "const":
+            return o.get("val")
+        pl = o["place"]
+        if not pl["proj"]:
+            sd = fn.single_def(pl["local"])
+            if sd and sd[1] != "term" and sd[2].get("k") == "assign" and sd[2]["rv"]["k"] == "use" and sd[2]["rv"]["op"]["k"] in ("copy", "move"):
+                pl = sd[2]["rv"]["op"]["place"]
+        if [e["k"] for e in pl["proj"]] == ["deref"]:
+            r2 = _iter_item(D, pl["local"])
+            if r2 is not None and r2[1] == rng:
+                return ("elem", _elem_base(r2[0][1]))
+        return ("?",)
+    rv = s["rv"]
+    if rv["k"] == "binop":
+        val = (rv["op"], opd(rv["a"]), opd(rv["b"]))
+    elif rv["k"] == "use":
+        val = opd(rv["op"])
+    else:
+        return None
+    return ("elem", base[1], (rng, val))
+
+
 def distribute_ints(desc):
     """('slice', base, (kind, a + one-of-constants)) is one of the slices with each constant"""
     if not (isinstance(desc, tuple) and desc[0] == "slice" and isinstance(desc[2], tuple) and len(desc[2]) == 2):
@@ -348,6 +520,11 @@ def body_events(fn, G, D, pts, want_call=lambda d: True):
         if b["cleanup"]:
             continue
         for si, s in enumerate(b["stmts"]):
+            if s["k"] == "assign" and [e["k"] for e in s["place"]["proj"]] == ["deref"]:
+                ev = zipped_elem_event(D, fn, s)
+                if ev is not None:
+                    evs.append(ev + (bi, s, si))
+                    continue
             if s["k"] == "assign" and s["place"]["proj"]:
                 paths = pts.resolve_place(s["place"])
                 ext = [(r, p) for r, p in paths if r[0] == "ext"]
@@ -356,8 +533,8 @@ def body_events(fn, G, D, pts, want_call=lambda d: True):
                     evs.append(("assign", D.chain_of(set(ext)), val, bi, s, si))
                 elif all(e["k"] == "index" for e in s["place"]["proj"]) and fn.local_ty(s["place"]["local"])["k"] == "array":
                     l = s["place"]["local"]
-                    idx = D.num(strip_bb(D.R.local(s["place"]["proj"][0]["local"])))
-                    evs.append(("elem", "local#%d" % l, (idx, D.elem_value(l, s["rv"])), bi, s, si))
+                    idx = loop_index(D, s["place"]["proj"][0]["local"]) or D.num(strip_bb(D.R.local(s["place"]["proj"][0]["local"])))
+                    evs.append(("elem", "local#%d" % l, (idx, D.elem_value(l, s["rv"], s["place"]["proj"][0]["local"])), bi, s, si))
             elif s["k"] == "assign" and not s["place"]["proj"] and s["rv"]["k"] == "repeat" and s["place"]["local"] in D.R.mut_borrowed | set(l2 for l2 in range(len(fn.locals)) if len(fn.defs().get(l2, [])) > 1):
                 evs.append(("init", "local#%d" % s["place"]["local"], ("repeat", s["rv"]["op"].get("val"), s["rv"]["n"]), bi, s, si))
         t = b["term"]
